@@ -532,6 +532,18 @@ Definition run_marshal (sch : schema) (det : bool) (mid : nat) (p : list mstmt) 
   | _ => None
   end.
 
+(* the whole closure, prologue and epilogue included (Codec.pulsar_marshal with the bytes the program writes in place of
+   emit): dAtA := make([]byte, size) with size = options.Size(x) = msg_size; writing more than size bytes is an index-out-of-range
+   panic, writing fewer leaves leading zero bytes *)
+Definition run_marshal_closure (sch : schema) (det : bool) (mid : nat) (p : list mstmt) (v : val) : option (outcome (list byte)) :=
+  match run_marshal sch det mid p v with
+  | Some bs =>
+    let n := msg_size sch mid v in
+    let l := mp_len bs in
+    Some (if l =? n then Ok bs else if n <? l then Panic else Ok (repeat x00 (N.to_nat (n - l)) ++ bs))
+  | None => None
+  end.
+
 (* ---- the program the template emits (proto_marshal.go, proto3; groups are rejected by the generator) ------- *)
 (* encodeKey: keybuf (= Codec.key_bytes) printed from its last byte to its first, each as `i--; dAtA[i] = 0x..` *)
 Definition mp_key (num wt : N) : list mstmt :=
